@@ -9,9 +9,12 @@ import (
 	"fmt"
 	"hash/fnv"
 	"os"
+	"runtime"
 	"runtime/debug"
 	"sort"
+	"strconv"
 	"sync"
+	"time"
 )
 
 // ---------------------------------------------------------------------------
@@ -332,4 +335,38 @@ func (c *Ctx) Finish() error {
 		return err
 	}
 	return os.WriteFile(c.OutPath, b, 0o644)
+}
+
+// Watchdog is the bounded-progress form of "does not deadlock / returns": if
+// the returned stop function has not been called after d (chosen >= 100x the
+// normal duration of the guarded section), a violation with the goroutine dump
+// is recorded and the child exits, since a wedged library cannot be driven any
+// further. An external watchdog kill, by contrast, is inconclusive.
+func (c *Ctx) Watchdog(d time.Duration, sig string, desc interface{}) (stop func()) {
+	if v := os.Getenv("VERIF_WATCHDOG_S"); v != "" { // experiments only
+		if n, err := strconv.Atoi(v); err == nil && n > 0 {
+			d = time.Duration(n) * time.Second
+		}
+	}
+	done := make(chan struct{})
+	var once sync.Once
+	go func() {
+		select {
+		case <-done:
+		case <-time.After(d):
+			buf := make([]byte, 1<<20)
+			n := runtime.Stack(buf, true)
+			c.Violation(sig, map[string]interface{}{"why": fmt.Sprintf("no progress: the guarded section has not finished after %v (normally far below a second); goroutine dump attached", d), "case": desc, "goroutines": trimDump(string(buf[:n]))})
+			c.Finish()
+			os.Exit(1)
+		}
+	}()
+	return func() { once.Do(func() { close(done) }) }
+}
+
+func trimDump(s string) string {
+	if len(s) > 60000 {
+		return s[:60000]
+	}
+	return s
 }
